@@ -459,10 +459,15 @@ def get(repo=REPO, write=True):
         return _CACHE[repo]
     v = build(repo)
     if write:
-        os.makedirs(BUILD, exist_ok=True)
-        with open(os.path.join(BUILD, "vocab.json"), "w") as f:
+        # per-process output: concurrent runs against different trees (VERIF_REPO) must not share the extracted tables
+        out = os.path.join(BUILD, "vocab", str(os.getpid()))
+        os.makedirs(out, exist_ok=True)
+        with open(os.path.join(out, "vocab.json"), "w") as f:
             json.dump(v, f, indent=1, sort_keys=True)
-        emit_tla(v, os.path.join(BUILD, "Vocab.tla"))
+        emit_tla(v, os.path.join(out, "Vocab.tla"))
+        import atexit
+        import shutil
+        atexit.register(shutil.rmtree, out, True)
     _CACHE[repo] = v
     return v
 
